@@ -4,6 +4,7 @@
   python3 run.py <C01..C20> --tier quick|thorough     one property (exit 0 held / 1 VIOLATION / 2 tool error)
   python3 run.py replay <replay.json>                 re-run a recorded violation
   python3 run.py setup                                build the harness, parse every specification
+  python3 run.py binding [cases]                      the wasm glue and index.js against spec/Binding.tla (not a listed property)
 
 See DESIGN.md 3.4 for the verdict policy: a VIOLATION of property P is reported iff the predicate of P in
 spec/Props*.tla is false on something the real code did (evaluated by TLC on the recorded trace), or, for the
@@ -29,6 +30,9 @@ def main():
             return plans.replay_file(a.arg)
         if a.what == "selftest":
             return plans.selftest()
+        if a.what == "binding":
+            from lsv import binding
+            return binding.run(["--seed=%d" % a.seed] + (["--cases=%s" % a.arg] if a.arg else []))
         return plans.run_property(a.what, a.tier, a.seed)
     except ToolError as e:
         log("TOOL ERROR: %s" % e)
